@@ -12,7 +12,7 @@ RULE = (
 )
 ASSUMPTIONS = ["LT05 may move trailing comments (multiset, not sequence, of comments is compared - as the statement says)"]
 TIMEOUT = {"quick": 400, "thorough": 900}
-MIN_NONTRIVIAL = {"quick": 80, "thorough": 800}
+MIN_NONTRIVIAL = {"quick": 50, "thorough": 800}
 REQUIRED_COUNTERS = ["token_sequences_compared", "files_changed_by_fix"]
 
 VARIANTS = [
@@ -48,7 +48,7 @@ def universe():
 
 
 def cases(tier, seed):
-    return stratified_sample(universe(), lambda c: c["stratum"], 600 if tier == "quick" else 0, seed)
+    return stratified_sample(universe(), lambda c: c["stratum"], 360 if tier == "quick" else 0, seed)
 
 
 def run_case(case):
